@@ -106,8 +106,13 @@ def r_agg(E):
     # update_total_footprint iterates one dict's keys over both
     owner, utf = pm.find_method("System", "update_total_footprint")
     res.instances += 1
-    t = norm(utf)
-    if "self.fabrication_footprints[key]" not in t or "self.energy_footprints[key]" not in t:
+    subs = {}
+    for n in ast.walk(utf):
+        if isinstance(n, ast.Subscript) and isinstance(n.value, ast.Attribute) and n.value.attr in (
+                "fabrication_footprints", "energy_footprints"):
+            subs.setdefault(n.value.attr, set()).add(norm(n.slice))
+    if set(subs) != {"fabrication_footprints", "energy_footprints"} or \
+            subs["fabrication_footprints"] != subs["energy_footprints"]:
         res.findings.append(Finding("R-AGG", "KEYS System.update_total_footprint",
                                     "update_total_footprint no longer sums both the fabrication and the energy entry of "
                                     "each category", rel, utf.lineno, "System.update_total_footprint"))
@@ -323,10 +328,15 @@ def r_json_kinds(E):
         if isinstance(n, ast.Compare) and isinstance(n.ops[0], ast.In) and isinstance(n.comparators[0], ast.List) \
                 and norm(n.left) == "key":
             whitelist |= {e.value for e in n.comparators[0].elts if isinstance(e, ast.Constant)}
-    branches = norm(tj)
-    has = {"none_or_str": "value is None or isinstance(value, str)" in branches,
-           "model": "isinstance(value, ModelingObject)" in branches,
-           "to_json": "getattr(value, 'to_json', None) is not None" in branches}
+    tests = [n.test for n in ast.walk(tj) if isinstance(n, ast.If)]
+
+    def isinst(name):
+        return any(isinstance(c, ast.Call) and norm(c.func) == "isinstance" and len(c.args) == 2 and name in norm(c.args[1])
+                   for t in tests for c in ast.walk(t))
+    has = {"none_or_str": isinst("str") and any(isinstance(c, ast.Compare) and isinstance(c.ops[0], ast.Is)
+                                                 and norm(c.comparators[0]) == "None" for t in tests for c in ast.walk(t)),
+           "model": isinst("ModelingObject"),
+           "to_json": any(isinstance(c, ast.Constant) and c.value == "to_json" for t in tests for c in ast.walk(t))}
     if not all(has.values()):
         res.findings.append(Finding("R-JSON-KINDS", "ModelingObject.to_json branches",
                                     f"ModelingObject.to_json lost a dispatch branch: {has}", rel, tj.lineno,
@@ -400,8 +410,17 @@ def r_json_upg(E):
                                         f"of the module", rel, table.lineno, "VERSION_UPGRADE_HANDLERS"))
     rel2, j = pm.find_function(J2S, "json_to_system")
     res.instances += 1
-    t = norm(j)
-    if "range(json_major_version, efootprint_major_version)" not in t or "VERSION_UPGRADE_HANDLERS[version](system_dict)" not in t:
+    loop_ok = False
+    for n in ast.walk(j):
+        if isinstance(n, ast.For) and isinstance(n.iter, ast.Call) and norm(n.iter.func) == "range" and len(n.iter.args) == 2 \
+                and isinstance(n.target, ast.Name):
+            for a in ast.walk(n):
+                if isinstance(a, ast.Assign) and isinstance(a.value, ast.Call) and isinstance(a.value.func, ast.Subscript) \
+                        and norm(a.value.func.value) == "VERSION_UPGRADE_HANDLERS" \
+                        and norm(a.value.func.slice) == n.target.id and a.value.args \
+                        and norm(a.targets[0]) == norm(a.value.args[0]):
+                    loop_ok = True
+    if not loop_ok:
         res.findings.append(Finding("R-JSON-UPG", "loader loop", "json_to_system no longer applies the handlers for every "
                                     "version between the file's major and the current one", rel2, j.lineno, "json_to_system"))
     # each handler returns the dict it upgraded
@@ -483,10 +502,19 @@ def _validator_forms(fn):
             top = n
     if top is None:
         return None
-    inner = norm(ast.Module(body=top.body, type_ignores=[]))
-    if "(list, List)" in inner or "in (list," in inner:
+    names_in_origin_tests = set()
+    for n in [top] + [x for b in top.body for x in ast.walk(b)]:
+        if isinstance(n, ast.Compare) and "get_origin" in norm(n.left):
+            for c in n.comparators:
+                names_in_origin_tests |= {x.id for x in ast.walk(c) if isinstance(x, ast.Name)}
+    # the union normalisation may also sit just before the dispatch
+    for n in ast.walk(fn):
+        if isinstance(n, ast.Compare) and "get_origin" in norm(n.left):
+            for c in n.comparators:
+                names_in_origin_tests |= {x.id for x in ast.walk(c) if isinstance(x, ast.Name)}
+    if names_in_origin_tests & {"list", "List"}:
         handled.add("list")
-    if "Union" in inner or "UnionType" in inner or "get_args(annotation)" in inner.replace("get_args(annotation)[0]", ""):
+    if names_in_origin_tests & {"Union", "UnionType"}:
         handled.add("union")
     # the elif chain after it handles plain classes
     if top.orelse and "isinstance(input_value, annotation)" in norm(ast.Module(body=top.orelse, type_ignores=[])):
@@ -519,12 +547,21 @@ def r_val_forms(E):
                     f"validator only looks for list origins there, so the value is accepted unchecked — wrong type, "
                     f"wrong dimension or negative", pm.path_of(pm.ctor(c)[0]), pm.ctor(c)[1].lineno, f"{c}.__init__"))
     # the checks inside the class branch: type, dimension, sign
-    t = norm(fn)
-    for need, what in (("dimensionality != default_value.value.dimensionality", "dimension"),
-                       ("input_value.magnitude < 0", "sign"), ("isinstance(input_value, annotation)", "type"),
-                       ("isinstance(item, inner_type)", "list element type")):
+    vparam = fn.args.args[2].arg if len(fn.args.args) > 2 else "input_value"
+    cmps = [n for n in ast.walk(fn) if isinstance(n, ast.Compare)]
+    isins = [c for c in ast.walk(fn) if isinstance(c, ast.Call) and norm(c.func) == "isinstance" and len(c.args) == 2]
+    present = {
+        "dimension": any(isinstance(c.ops[0], ast.NotEq) and norm(c.left).endswith(".dimensionality")
+                         and norm(c.comparators[0]).endswith(".dimensionality") and vparam in norm(c) for c in cmps),
+        "sign": any(isinstance(c.ops[0], (ast.Lt, ast.LtE)) and vparam in norm(c.left) and "magnitude" in norm(c.left)
+                    and norm(c.comparators[0]) == "0" for c in cmps),
+        "type": any(norm(c.args[0]) == vparam and norm(c.args[1]) == "annotation" for c in isins),
+        "list element type": any(norm(c.args[0]) != vparam and isinstance(getattr(c, "_parent", None), (ast.GeneratorExp, ast.ListComp))
+                                 for c in isins),
+    }
+    for what, ok in present.items():
         res.instances += 1
-        if need not in t:
+        if not ok:
             res.findings.append(Finding("R-VAL-FORMS", f"validator lost its {what} check",
                                         f"check_input_value_type_positivity_and_unit no longer checks the {what}", rel,
                                         fn.lineno, fn.name))
@@ -562,7 +599,8 @@ def r_val_sib(E):
         c = calls[0]
         # the validator receives the attribute name and the new value
         args = [norm(a) for a in c.args]
-        if path == "construction" and args[:2] != ["name", "input_value"]:
+        own = [a.arg for a in fn.args.args][1:3]
+        if path == "construction" and args[:2] != own:
             res.findings.append(Finding("R-VAL-SIB", f"{path} {v} arguments", f"{fn.name} calls {v}({', '.join(args[:2])})",
                                         r, c.lineno, fn.name))
         if path == "update" and v.startswith("check_input") and args[:2] != ["old_value.attr_name_in_mod_obj_container", "new_value"]:
